@@ -1,4 +1,5 @@
 """Shared driver for the Engine A properties (C01, C05, C11, C15, C16)."""
+from .. import runtime
 from ..explore import bfs
 
 LEVEL = 'model_checking'
@@ -32,11 +33,18 @@ def run(rep, prop):
         trans += r['transitions']
         if not r['closed'] and maxd is None:
             exhaustive = False
+    # held-facade transitions (DESIGN section 0): U2 from every state; U3 from the states of depth <= 1 (quick) / all (thorough)
+    held = 0
+    for uname, maxd in (('U2', None), ('U3', 1 if rep.tier == 'quick' else None)):
+        tmp = runtime.Acc()
+        r = bfs.explore(uname, tmp, max_depth=maxd, collect=True)
+        held += bfs.held_facades(uname, r['state_list'], rep.acc, quick=False)
+    trans += held
     c = rep.acc.counters
     rep.coverage.update({
         'states': states, 'transitions': trans, 'traces_validated_against_impl': trans,
         'evaluations': trans, 'distinct_nontrivial': c['nontrivial_accepted_changing'] + c['nontrivial_rejected'],
-        'rule': RULES[prop], 'universes': per, 'exhaustive': exhaustive,
+        'rule': RULES[prop], 'universes': per, 'exhaustive': exhaustive, 'held_facade_transitions': held,
         'accepted_transitions': sum(v for k, v in c.items() if isinstance(k, str) and k.startswith('accepted:')),
         'rejected_transitions': sum(v for k, v in c.items() if isinstance(k, str) and k.startswith('rejected:')),
         'explanation': 'explicit-state BFS over the real Task/WBS objects; every edge executed on the implementation and '
